@@ -756,6 +756,132 @@ Proof.
   apply kcons_when, kcons_rt_erase_k.
 Qed.
 
+(* ---------------------------------------------------------------- drain_filter: conservation *)
+
+(* rt_remove: the element leaves the tables and is handed out; releasing the (then empty) old
+   table changes nothing *)
+Lemma rt_remove_conserves im k s :
+  lite s ->
+  wpp (rt_remove c im k)
+      (fun x s' => lite s' /\ dks s' = dks s /\ ekid x :: map ekid (elems (s_rt s')) ≡ₚ map ekid (elems (s_rt s))) TT s.
+Proof.
+  intros [Hm Hl]. unfold rt_remove. destruct im.
+  - apply wpp_bind. unfold getm. apply wpp_gets'. set (t := main (s_rt s)) in *.
+    unfold hb_remove. destruct (hel t !! k) as [x|] eqn:E; [|exact I].
+    apply wpp_bind. apply wpp_bind.
+    assert (Htt : rp (fun _ => True) take_tomb).
+    { intros s0. unfold take_tomb, bind, get. cbn. destruct (s_tomb s0 =? 0); cbn; auto. }
+    eapply wpp_mono; [apply rp_wpp, Htt|]. cbn beta. intros b s1 (Hr1 & Hk1 & Hv1 & _).
+    unfold ret, setm, modify, bind, wpp. cbn [fst snd].
+    unfold lite, elems, dks in *. cbn [set_rt s_rt main lo s_log]. rewrite Hr1.
+    split; [split; [eapply hbc_del; eauto|exact Hl]|]. split; [exact Hk1|]. fold t.
+    rewrite <- (map_to_list_delete (hel t) k x E). cbn [hb_del hel]. rewrite !map_app. reflexivity.
+  - apply wpp_bind. unfold getlo. apply wpp_gets'. destruct (lo (s_rt s)) as [o|] eqn:Eo; [|exact I].
+    apply wpp_bind. unfold old_take. apply wpp_bind. unfold getlo. apply wpp_gets'. rewrite Eo.
+    destruct (lookup_list k (orem o)) as [x|] eqn:E; [|exact I].
+    cbn [oldc] in Hl. destruct Hl as (Hi & Hc & Hnd).
+    pose proof (perm_remove_list k (orem o) x Hnd E) as Hp.
+    pose proof (remove_list_nodup k (orem o) Hnd) as Hnd'.
+    apply lookup_list_Some in E as [Hin Hk]. pose proof (remove_list_length k (orem o) x Hnd Hin Hk) as Hlen.
+    (* the rest after the element has been taken out of the old table *)
+    assert (Hrest : forall s1 : st,
+      main (s_rt s1) = main (s_rt s) ->
+      (exists i, lo (s_rt s1) = Some (Old (oB o) (remove_list k (orem o)) i (ocnt o - 1)) /\ i = ocnt o - 1) ->
+      dks s1 = dks s ->
+      wpp (o' <- getlo ;; match o' with Some o' => when (olen o' =? 0) free_old | None => ret tt end ;;; ret x)
+          (fun a s' => lite s' /\ dks s' = dks s /\ ekid a :: map ekid (elems (s_rt s')) ≡ₚ map ekid (elems (s_rt s))) TT s1).
+    { intros s1 Hm1 (i & Hlo1 & ->) Hk1.
+      assert (Hl1 : lite s1).
+      { split; [rewrite Hm1; exact Hm|]. rewrite Hlo1. cbn. split; [lia|]. split; [lia|exact Hnd']. }
+      assert (Hel1 : ekid x :: map ekid (elems (s_rt s1)) ≡ₚ map ekid (elems (s_rt s))).
+      { unfold elems. rewrite Hm1, Hlo1, Eo. cbn [orem]. rewrite Hp at 2. rewrite !map_app. cbn [map]. apply Permutation_middle. }
+      apply wpp_bind. unfold getlo. apply wpp_gets'. rewrite Hlo1. apply wpp_bind.
+      apply wpp_when.
+      - intros H0. apply N.eqb_eq in H0. unfold olen in H0. cbn [ocnt] in H0.
+        eapply wpp_mono; [apply free_old_empty; [exact Hl1|]|].
+        { unfold old_empty. rewrite Hlo1. cbn [orem]. destruct (remove_list k (orem o)); [reflexivity|cbn in Hlen; lia]. }
+        cbn beta. intros _ s2 ((Hk2 & _ & Hl2) & Hlo2 & Hm2). apply wpp_ret.
+        split; [exact Hl2|]. split; [congruence|]. rewrite <- Hel1. apply Permutation_cons; [reflexivity|].
+        unfold elems. rewrite Hm2, Hlo2, Hlo1. cbn [orem].
+        assert (remove_list k (orem o) = []) as -> by (destruct (remove_list k (orem o)); [reflexivity|cbn in Hlen; lia]).
+        reflexivity.
+      - intros _. apply wpp_ret. auto. }
+    assert (Hfin : forall i, i = ocnt o - 1 ->
+      wpp (setlo (Some (Old (oB o) (remove_list k (orem o)) i (ocnt o - 1))) ;;; ret x)
+          (fun a s1 => wpp (o' <- getlo ;; match o' with Some o' => when (olen o' =? 0) free_old | None => ret tt end ;;; ret a)
+                 (fun a s' => lite s' /\ dks s' = dks s /\ ekid a :: map ekid (elems (s_rt s')) ≡ₚ map ekid (elems (s_rt s))) TT s1) TT s).
+    { intros i ->. unfold setlo, modify, bind at 1, ret at 1, wpp at 1. apply Hrest; cbn [set_rt s_rt main lo]; [reflexivity|eauto|reflexivity]. }
+    destruct (czst c); [apply Hfin; reflexivity|]. destruct (oit o =? 0); [exact I|apply Hfin; lia].
+Qed.
+
+Lemma kcons_drop_elem_of x s0 s1 :
+  lite s1 -> dks s1 = dks s0 -> ekid x :: map ekid (elems (s_rt s1)) ≡ₚ map ekid (elems (s_rt s0)) ->
+  wpp (drop_elem x) (fun _ s' => cons_ok ekid dks s0 s') TT s1.
+Proof.
+  intros Hl Hk Hp. unfold drop_elem, drop_key, drop_val, tick, modify, bind, wpp, cons_ok, lite, heldf, dks in *. cbn.
+  split; [exact Hl|]. rewrite Hk, <- Hp. cbn [app]. apply Permutation_middle.
+Qed.
+
+Lemma kcons_df_drop take delta : forall l, kcons ekid dks (df_drop c take delta l).
+Proof.
+  induction l as [|x l IH]; cbn [df_drop]; [apply kcons_ret|].
+  apply kcons_bind; [apply (kcons_rp _ _ rp_cb)|]. intros _.
+  apply kcons_bind; [apply kcons_when, kcons_set_value_k|]. intros _.
+  apply kcons_bind; [|intros _; exact IH].
+  destruct (inb _ _); [|apply kcons_ret]. intros s Hl. apply wpp_bind.
+  eapply wpp_mono; [apply rt_remove_conserves, Hl|]. cbn beta. intros e' s1 (Hl1 & Hk1 & Hp1).
+  apply kcons_drop_elem_of; assumption.
+Qed.
+
+(* the user's calls of next(): what was in the map is afterwards stored, dropped, or among the
+   yielded elements - each key object exactly once *)
+Lemma df_run_u_conserves take delta : forall l fuel acc s,
+  lite s ->
+  wpp (df_run_u c take delta l fuel acc)
+      (fun r s' => lite s' /\
+         dks s' ++ map ekid (elems (s_rt s')) ++ map ekid (fst r) ≡ₚ dks s ++ map ekid (elems (s_rt s)) ++ map ekid acc) TT s.
+Proof.
+  induction l as [|x l IH]; intros fuel acc s Hl; cbn [df_run_u]; [apply wpp_ret; auto|].
+  destruct fuel as [|fuel]; [apply wpp_ret; auto|].
+  apply wpp_bind. apply wpp_on_unwind. eapply wpp_conseq; [apply rp_wpp, rp_cb| |].
+  2:{ intros p s1 _. unfold wpp, TT. destruct (df_drop c take delta l s1); exact I. }
+  cbn beta. intros _ s1 (Hr1 & Hk1 & _).
+  assert (Hl1 : lite s1) by (unfold lite in *; rewrite Hr1; exact Hl).
+  apply wpp_bind. eapply wpp_mono; [apply (kcons_when _ _ _ _ (kcons_set_value_k x.1 (ek x.2) (ev x.2 + delta))), Hl1|].
+  cbn beta. intros _ s2 [Hl2 Hp2]. unfold heldf in Hp2.
+  assert (Hbase : dks s2 ++ map ekid (elems (s_rt s2)) ≡ₚ dks s ++ map ekid (elems (s_rt s))).
+  { rewrite Hp2, Hk1, Hr1. reflexivity. }
+  destruct (inb (ek x.2) take).
+  - apply wpp_bind. eapply wpp_mono; [apply rt_remove_conserves, Hl2|]. cbn beta. intros e' s3 (Hl3 & Hk3 & Hp3).
+    eapply wpp_mono; [apply (IH fuel (acc ++ [e']) s3 Hl3)|]. cbn beta. intros r s4 [Hl4 Hp4].
+    split; [exact Hl4|]. rewrite Hp4, Hk3, map_app. cbn [map].
+    transitivity (dks s2 ++ (ekid e' :: map ekid (elems (s_rt s3))) ++ map ekid acc).
+    { apply Permutation_app_head. cbn [app]. rewrite app_assoc. symmetry. apply Permutation_cons_append. }
+    rewrite Hp3. rewrite app_assoc, Hbase, <- app_assoc. reflexivity.
+  - eapply wpp_mono; [apply (IH (S fuel) acc s2 Hl2)|]. cbn beta. intros r s4 [Hl4 Hp4].
+    split; [exact Hl4|]. rewrite Hp4. rewrite !app_assoc. apply Permutation_app_tail. exact Hbase.
+Qed.
+
+(* C06: drain_filter, consumed for any number of items, then dropped or forgotten: every key
+   object the map held is afterwards still stored, or dropped, or was yielded - exactly once *)
+Theorem map_drain_filter_conserves_keys take delta j forget s :
+  lite s ->
+  wpp (map_drain_filter c take delta j forget)
+      (fun out s' => lite s' /\ exists yielded, out = map elem3 yielded /\
+         dks s' ++ map ekid (elems (s_rt s')) ++ map ekid yielded ≡ₚ dks s ++ map ekid (elems (s_rt s))) TT s.
+Proof.
+  intros Hl. unfold map_drain_filter. apply wpp_bind. eapply wpp_mono; [apply rp_wpp, rp_rt_iter|].
+  cbn beta. intros l s1 (Hr1 & Hk1 & _).
+  assert (Hl1 : lite s1) by (unfold lite in *; rewrite Hr1; exact Hl).
+  apply wpp_bind. eapply wpp_mono; [apply df_run_u_conserves, Hl1|]. cbn beta. intros r s2 [Hl2 Hp2].
+  cbn [map] in Hp2. rewrite app_nil_r in Hp2. rewrite Hk1, Hr1 in Hp2.
+  apply wpp_bind. destruct forget.
+  - apply wpp_ret, wpp_ret. split; [exact Hl2|]. exists (fst r). split; [reflexivity|exact Hp2].
+  - eapply wpp_mono; [apply kcons_df_drop, Hl2|]. cbn beta. intros _ s3 [Hl3 Hp3]. apply wpp_ret.
+    split; [exact Hl3|]. exists (fst r). split; [reflexivity|]. unfold heldf in Hp3.
+    rewrite app_assoc, Hp3, <- app_assoc. exact Hp2.
+Qed.
+
 End Ledger.
 
 (* the invariant of the development provides what the ledger analysis needs *)
